@@ -213,11 +213,14 @@ class DriverHarness:
     max_polls = 200
     stop_on_first_violation = False
     max_violations = 8
-    def __init__(self, c, nreq, nlogs, spurious):
+    def __init__(self, c, nreq, nlogs, spurious, outcomes=('ok', 'err')):
         self.c = c
         self.nreq = nreq
         self.nlogs = nlogs
         self.spurious = spurious
+        self.outcomes = outcomes
+        # burst shape: every request is on the wire before the first handler finishes, handlers finish in arrival order
+        self.burst = nreq >= 5
     def configure(self, m):
         m.generic_bindings = {}
     def init(self, m):
@@ -268,9 +271,12 @@ class DriverHarness:
                 m.event('request_fed', k)
                 st.sched.wake(inp.waiters)
             out.append(('feed request', feed))
-        for h in st.env.handlers:
+        pend = [h for h in st.env.handlers if h.result is None]
+        if self.burst:
+            pend = pend[:1] if st.roots['fed'] >= self.nreq else []
+        for h in pend:
             if h.result is None:
-                for oc in ('ok', 'err'):
+                for oc in self.outcomes:
                     def done(m, hid=h.hid, oc=oc):
                         hh = m.st.env.handlers[hid]
                         hh.result = _ok(jnumber(sym.var('r%d' % hid))) if oc == 'ok' else _err(Opaque('anyhow', 'handler error'))
@@ -287,6 +293,13 @@ class DriverHarness:
                 st.sched.wake(tx.ch.rx_waiters)
             out.append(('log entry', log))
         return out
+    def enabled_filter(self, m, trs):
+        # burst shape only: the environment moves when every task is blocked (run to blocking); the tasks still interleave
+        if self.burst:
+            tasks = [t for t in trs if t[0] == 'task']
+            if tasks:
+                return tasks
+        return trs
     def after_step(self, m, label):
         st = m.st
         for ev in st.events[st.roots.get('ev_seen', 0):]:
@@ -330,10 +343,12 @@ class DriverHarness:
             raise Violation('unflushed-output', {'documents': len(unflushed)}, 'output', 'unflushed')
 
 def driver_part(rep, c, tier):
-    cfgs = [(2, 0, False), (1, 1, True)] if tier == 'quick' else [(3, 0, False), (2, 1, True), (1, 2, True)]
-    for nreq, nlogs, sp in cfgs:
-        h = DriverHarness(c, nreq, nlogs, sp)
-        name = 'driver[%d requests,%d log entries%s]' % (nreq, nlogs, ',yield' if sp else '')
+    # the last shape exceeds the reply channel's capacity (4): a fifth request arrives while four handlers are still running
+    cfgs = [(2, 0, False, ('ok', 'err')), (1, 1, True, ('ok', 'err')), (5, 0, False, ('ok',))] if tier == 'quick' else \
+           [(3, 0, False, ('ok', 'err')), (2, 1, True, ('ok', 'err')), (1, 2, True, ('ok', 'err')), (6, 0, False, ('ok',))]
+    for nreq, nlogs, sp, ocs in cfgs:
+        h = DriverHarness(c, nreq, nlogs, sp, ocs)
+        name = 'driver[%d requests,%d log entries%s%s]' % (nreq, nlogs, ',yield' if sp else '', ',burst then handlers finish in order' if nreq >= 5 else '')
         ex = run_explorer(rep, c, h, name, max_states=200000, max_depth=400, time_budget=300 if tier == 'quick' else 1800)
         for v, trail, m in ex.violations[:1]:
             cex = {'property': PID, 'harness': name, 'kind': v.kind, 'detail': v.detail, 'trail': trail.to_list(), 'replay_kind': 'driver',
@@ -354,7 +369,7 @@ def native_driver(cex, nreq):
     from .. import native_plugin
     output_kind = cex.get('kind') in ('interleaved-output', 'write-without-output-lock', 'unflushed-output')
     try:
-        o = native_plugin.burst(400 if output_kind else max(nreq, 4))
+        o = native_plugin.burst(400 if output_kind else (max(nreq, 4) if nreq < 5 else 300))
     except Exception as e:
         return {'reproduced': False, 'why': 'native driver run failed: %r' % (e,)}
     ids = o.get('reply_ids', [])
